@@ -14,6 +14,8 @@ import (
 	"sort"
 	"sync"
 
+	"github.com/go-openapi/loads"
+
 	"verif/engine/enum"
 	"verif/engine/report"
 )
@@ -221,7 +223,12 @@ func main() {
 	if r.Replay != "" {
 		var c Case
 		r.LoadReplay(&c)
-		class, what, label, observed := check(c)
+		var class, what, label, observed string
+		if c.Sweep == "seq" {
+			class, what, label, observed = checkSeq(c)
+		} else {
+			class, what, label, observed = check(c)
+		}
 		fmt.Printf("replay %+v\n  observed: %s\n  situation: %s\n  class=%q %s\n", c, observed, label, class, what)
 		if class != "" {
 			r.Fail(class, what, c)
@@ -452,6 +459,8 @@ func main() {
 		}
 	})
 
+	seqSweep(r, done)
+
 	for _, k := range sortedKeys(total) {
 		r.Outcome(k, total[k])
 	}
@@ -480,7 +489,7 @@ func main() {
 		"recording producers never fail; Accept headers are well-formed, parameter-free and use q in tenths (C07 owns the rest); produces entries are lower case",
 		"typed entry point = the call sequence of a go-swagger generated handler (RouteInfo, Authorize, BindValidRequest, Respond) written in the harness",
 	)
-	r.Finish("every element of the stated products (sweeps main, deep-accept [thorough], auth) is served once by the real Context (APIHandler, or the typed call sequence ending in Context.Respond) and judged by the reference; one evaluation = one request; non-trivial = at least one MUST clause of the property applied to the case, i.e. its situation label does not start with 'may/' (cases are distinct by construction: the enumerator never repeats a (configuration, request, outcome, entry point) tuple)", true)
+	r.Finish("every element of the stated products (sweeps main, deep-accept [thorough], auth) is served once by the real Context (APIHandler, or the typed call sequence ending in Context.Respond) and judged by the reference; sweep seq: every ordered pair (thorough: also every ordered triple over a smaller alphabet) of steps (operation x handler outcome x Accept x entry point) over a description whose operations have no / a duplicated / a distinct operationId and declare different success codes and produces lists is served by ONE fresh Context, plus one walk per description that passes through every ordered pair on a single Context; every step is judged by the reference AND must give exactly the observation (status, headers, body, producer / Responder / error-responder calls) the same step gives as the first request of a fresh instance; one evaluation = one request; non-trivial = at least one MUST clause of the property applied to the case (its situation label does not start with 'may/') or, in sweep seq, the request was not the first one of its Context (cases are distinct by construction: the enumerator never repeats a (configuration, request, outcome, entry point) tuple nor a sequence)", true)
 }
 
 func countAscending(ls [][]int) int {
@@ -503,4 +512,249 @@ func renderAll(as [][]Range) []string {
 		}
 	}
 	return out
+}
+
+// ---- sweep "seq": sequences of requests on ONE Context ----
+
+// seqEnv is a fresh instance (API, Context, router, handler) of the sequence description.
+func seqEnv(doc *loads.Document, regs []opReg, mode string) *env {
+	return buildEnvWith(Config{Mode: mode, NoDocs: true}, doc, regs)
+}
+
+// serveSeq serves the steps one after the other on e. base(i) is the signature step i has
+// as the first request of a fresh instance. It returns at the first step that the
+// reference rejects or whose observation differs from the fresh one.
+func serveSeq(e *env, mode, ids string, steps []Step, base func(i int) string, st *shardStats) (k int, class, what, label, observed string) {
+	for i, s := range steps {
+		c := stepCase(mode, ids, s)
+		o := e.serve(&c)
+		cl, wh, lb := judge(e, &c, o)
+		sig := o.signature()
+		if st != nil {
+			st.evals++
+		}
+		fresh := base(i)
+		switch {
+		case cl != "" && sig != fresh:
+			return i, cl + "/history-dependent", fmt.Sprintf("step %d of the sequence: %s; as the first request of a fresh instance the same step gives: %s", i+1, wh, fresh), "", o.summary()
+		case cl != "":
+			return i, cl, fmt.Sprintf("step %d of the sequence: %s", i+1, wh), "", o.summary()
+		case sig != fresh:
+			return i, "history-dependent-response", fmt.Sprintf("step %d of the sequence (%s %s, outcome %s, %s) depends on the requests served before it by the same Context: observed %s; as the first request of a fresh instance: %s", i+1, c.Method, c.Path, c.Outcome, c.Via, sig, fresh), "", o.summary()
+		}
+		label, observed = lb, o.summary()
+		if st != nil {
+			key := "seq/" + lb
+			if i > 0 {
+				key = "seq-after-history/" + lb
+			}
+			st.outcomes[key]++
+			if i > 0 || len(lb) < 4 || lb[:4] != "may/" {
+				st.nontrivial++
+			}
+			if _, seen := st.firsts[key]; !seen && i > 0 {
+				if st.firsts == nil {
+					st.firsts = map[string]any{}
+				}
+				st.firsts[key] = map[string]any{"case": Case{Sweep: "seq", Mode: mode, IDs: ids, Steps: append([]Step(nil), steps[:i+1]...)}, "observed": observed, "situation": key}
+			}
+		}
+	}
+	return -1, "", "", label, observed
+}
+
+// checkSeq replays one sequence from scratch: fresh baselines, then the sequence on one Context.
+func checkSeq(c Case) (class, what, label, observed string) {
+	doc, regs := loadSeqDoc(c.IDs)
+	base := func(i int) string {
+		e := seqEnv(doc, regs, c.Mode)
+		sc := stepCase(c.Mode, c.IDs, c.Steps[i])
+		return e.serve(&sc).signature()
+	}
+	_, class, what, label, observed = serveSeq(seqEnv(doc, regs, c.Mode), c.Mode, c.IDs, c.Steps, base, nil)
+	return class, what, label, observed
+}
+
+// allPairsWalk returns a sequence over 0..n-1 in which every ordered pair (a, b), a == b
+// included, occurs as two consecutive elements: an Eulerian circuit of the complete
+// directed graph with loops (Hierholzer), n*n+1 elements.
+func allPairsWalk(n int) []int {
+	next := make([]int, n) // next unused successor of every node
+	var stack, out []int
+	stack = append(stack, 0)
+	for len(stack) > 0 {
+		v := stack[len(stack)-1]
+		if next[v] < n {
+			w := next[v]
+			next[v]++
+			stack = append(stack, w)
+		} else {
+			out = append(out, v)
+			stack = stack[:len(stack)-1]
+		}
+	}
+	for i, j := 0, len(out)-1; i < j; i, j = i+1, j-1 {
+		out[i], out[j] = out[j], out[i]
+	}
+	return out
+}
+
+func seqSweep(r *report.R, done func(*shardStats, int)) {
+	absent := []Range(nil)
+	nothing := []Range{{"image/png", 10}}
+	mk := func(outcomes []string, accepts [][]Range) []Step {
+		var out []Step
+		for op := range seqOps {
+			for _, oc := range outcomes {
+				for _, a := range accepts {
+					for _, via := range []string{"untyped", "typed"} {
+						out = append(out, Step{Op: op, Outcome: oc, NoAccept: a == nil, Accept: a, Via: via})
+					}
+				}
+			}
+		}
+		return out
+	}
+	// the second Accept header moves every operation to the API default type (or to 406
+	// where there is none), so consecutive steps also collide on the negotiated format
+	jsonOnly := []Range{{mtJSON, 10}}
+	pairAlpha := mk([]string{"string", "responder", "err-api"}, [][]Range{absent})
+	walkAlpha := mk([]string{"string", "responder", "err-api"}, [][]Range{absent, jsonOnly})
+	tripleAlpha := []Step(nil)
+	seqModes := []string{"json", "none"}
+	if r.Thorough() {
+		all5 := []string{"string", "nil", "responder", "mw-error", "err-api"}
+		pairAlpha = mk(all5, [][]Range{absent, jsonOnly})
+		walkAlpha = mk(all5, [][]Range{absent, jsonOnly, nothing})
+		tripleAlpha = mk([]string{"string", "err-api"}, [][]Range{absent})
+		seqModes = modes
+	}
+	alphas := [][]Step{pairAlpha, tripleAlpha, walkAlpha}
+	r.Set("axes_seq", map[string]any{
+		"operations":       seqOps,
+		"operation_ids":    idVariants,
+		"modes":            seqModes,
+		"pair_alphabet":    fmt.Sprintf("%d steps = 5 operations x outcomes x Accept x {untyped, typed}; all %d ordered pairs, each on one fresh Context", len(pairAlpha), len(pairAlpha)*len(pairAlpha)),
+		"triple_alphabet":  fmt.Sprintf("%d steps; all %d ordered triples (thorough only, modes json and none)", len(tripleAlpha), len(tripleAlpha)*len(tripleAlpha)*len(tripleAlpha)),
+		"walk":             fmt.Sprintf("one walk of %d requests per (ids, mode) on a single Context passing through every ordered pair of a %d-step alphabet (the pair alphabet's outcomes with more Accept headers)", len(walkAlpha)*len(walkAlpha)+1, len(walkAlpha)),
+		"steps_walk":       walkAlpha,
+		"steps_pairs":      pairAlpha,
+		"differential":     "every step must give the observation it gives as the first request of a fresh instance",
+		"offer_order_note": "every operation declares at most one media type besides the API default, so responses do not depend on the map order in which go-openapi/analysis returns a produces list",
+	})
+
+	type cfgKey struct{ ids, mode string }
+	var cfgs []cfgKey
+	for _, ids := range idVariants {
+		for _, m := range seqModes {
+			cfgs = append(cfgs, cfgKey{ids, m})
+		}
+	}
+	docs := map[string]*loads.Document{}
+	regsOf := map[string][]opReg{}
+	for _, ids := range idVariants {
+		docs[ids], regsOf[ids] = loadSeqDoc(ids)
+	}
+	// baselines: every step of both alphabets as the first request of a fresh instance.
+	// The documents are only read from here on, so the workers share them.
+	type baseKey struct {
+		cfg, alpha, i int // alpha: 0 pairs, 1 triples, 2 walk
+	}
+	baseline := map[baseKey]string{}
+	var bmu sync.Mutex
+	enum.Parallel(len(cfgs), nil, func(ci int) {
+		k := cfgs[ci]
+		st := &shardStats{outcomes: map[string]int64{}}
+		for ai, steps := range alphas {
+			for i, s := range steps {
+				e := seqEnv(docs[k.ids], regsOf[k.ids], k.mode)
+				c := stepCase(k.mode, k.ids, s)
+				o := e.serve(&c)
+				sig := o.signature()
+				st.evals++
+				if cl, wh, lb := judge(e, &c, o); cl != "" {
+					r.Fail(cl, "first request of a fresh instance: "+wh, Case{Sweep: "seq", Mode: k.mode, IDs: k.ids, Steps: []Step{s}})
+				} else {
+					st.outcomes["seq/"+lb]++
+					if len(lb) < 4 || lb[:4] != "may/" {
+						st.nontrivial++
+					}
+				}
+				bmu.Lock()
+				baseline[baseKey{ci, ai, i}] = sig
+				bmu.Unlock()
+			}
+		}
+		done(st, 300000+ci)
+	})
+
+	fail := func(k cfgKey, steps []Step, at int, class, what string) {
+		r.Fail(class, what, Case{Sweep: "seq", Mode: k.mode, IDs: k.ids, Steps: append([]Step(nil), steps[:at+1]...)})
+	}
+
+	// pairs: shard = (configuration, first step)
+	n := len(pairAlpha)
+	enum.Parallel(len(cfgs)*n, r.OutOfTime, func(x int) {
+		ci, a := x/n, x%n
+		k := cfgs[ci]
+		st := &shardStats{outcomes: map[string]int64{}}
+		for b := 0; b < n; b++ {
+			steps := []Step{pairAlpha[a], pairAlpha[b]}
+			idx := []int{a, b}
+			e := seqEnv(docs[k.ids], regsOf[k.ids], k.mode)
+			at, class, what, _, _ := serveSeq(e, k.mode, k.ids, steps, func(i int) string { return baseline[baseKey{ci, 0, idx[i]}] }, st)
+			if class != "" {
+				fail(k, steps, at, class, what)
+				st.nontrivial++
+				st.outcomes["deviation/"+class]++
+			}
+		}
+		done(st, 310000+x)
+	})
+
+	// triples (thorough): shard = (configuration, first step); modes json and none
+	if m := len(tripleAlpha); m > 0 {
+		enum.Parallel(len(cfgs)*m, r.OutOfTime, func(x int) {
+			ci, a := x/m, x%m
+			k := cfgs[ci]
+			if k.mode != "json" && k.mode != "none" {
+				return
+			}
+			st := &shardStats{outcomes: map[string]int64{}}
+			for b := 0; b < m; b++ {
+				for c3 := 0; c3 < m; c3++ {
+					steps := []Step{tripleAlpha[a], tripleAlpha[b], tripleAlpha[c3]}
+					idx := []int{a, b, c3}
+					e := seqEnv(docs[k.ids], regsOf[k.ids], k.mode)
+					at, class, what, _, _ := serveSeq(e, k.mode, k.ids, steps, func(i int) string { return baseline[baseKey{ci, 1, idx[i]}] }, st)
+					if class != "" {
+						fail(k, steps, at, class, what)
+						st.nontrivial++
+						st.outcomes["deviation/"+class]++
+					}
+				}
+			}
+			done(st, 400000+x)
+		})
+	}
+
+	// walks: one Context per configuration serves a sequence that contains every ordered pair
+	walk := allPairsWalk(len(walkAlpha))
+	enum.Parallel(len(cfgs), r.OutOfTime, func(ci int) {
+		k := cfgs[ci]
+		st := &shardStats{outcomes: map[string]int64{}}
+		steps := make([]Step, len(walk))
+		for i, w := range walk {
+			steps[i] = walkAlpha[w]
+		}
+		e := seqEnv(docs[k.ids], regsOf[k.ids], k.mode)
+		at, class, what, _, _ := serveSeq(e, k.mode, k.ids, steps, func(i int) string { return baseline[baseKey{ci, 2, walk[i]}] }, st)
+		if class != "" {
+			// the whole prefix is the replayable case (the pair sweep reports the short ones)
+			fail(k, steps, at, class+"/long-history", what)
+			st.nontrivial++
+			st.outcomes["deviation/"+class+"/long-history"]++
+		}
+		done(st, 500000+ci)
+	})
 }
